@@ -45,6 +45,13 @@ def main():
             "add_only": True,
         },
         "engines": [{
+            "name": "tla-gev-extras",
+            "path": "/verif/check",
+            "serves_properties": [],
+            "kind_free_text": "specification growth beyond the given list: ./check X01..X05 (codecs, containers, "
+                              "timex/randx, etcd watch, mpb/errorx) - same machinery, properties in extras/x0n.md, "
+                              "evidence in extras/evidence/, not claimed as checks",
+        }, {
             "name": "tla-gev",
             "path": "/verif/check",
             "serves_properties": sorted(BUILT),
